@@ -6,6 +6,7 @@ import (
 	"context"
 	"database/sql"
 	"sort"
+	"strconv"
 	"time"
 )
 
@@ -85,6 +86,14 @@ func (s *SQLiteStore) VerifCounters() (int, int, error) {
 	var queued, leased int
 	err := s.db.QueryRowContext(context.Background(), `SELECT queued, leased FROM queue_counters WHERE id = 1;`).Scan(&queued, &leased)
 	return queued, leased, err
+}
+
+// VerifSetBusyTimeout sets SQLite's busy_timeout on the store's connection (the
+// product uses 5 s; a harness that holds the write lock through a second handle
+// cannot wait that long per case).
+func (s *SQLiteStore) VerifSetBusyTimeout(ms int) error {
+	_, err := s.db.ExecContext(context.Background(), "PRAGMA busy_timeout="+strconv.Itoa(ms)+";")
+	return err
 }
 
 // VerifSetNow replaces the store's clock (a store built by run()'s wiring has no clock option). Call before use.
